@@ -132,6 +132,28 @@ def main():
         V.notes[f'{label}_tie_breaking_drift'] = drift_count[0]
         V.add_sample({'run': label, 'behaviour': behs[len(behs) // 3]})
 
+    # ---- a cap and a candidate list beyond 10^4 (the value the 3MR branch clamps to): for other heuristics the cap is the user's
+    ncol_b = 145
+    names_b = [f'c{i:03d}' for i in range(ncol_b)] + ['label']
+    frame_b = {n_: [str((i_ + k_) % 3) for k_ in range(4)] for i_, n_ in enumerate(names_b)}
+    cap_b = 10150
+    bj = [{'op': 'rank_graph', 'columns': names_b, 'frame': frame_b, 'batches': 3,
+           'args': {'heuristic': 'Constant', 'label_column': 'label', 'target_ranking_only': 'False', 'combination_number_upper_bound': cap_b}}]
+    br = PC.pipe_eval(bj, modules=['pipe_ops'])[0]
+    if br is None or 'ok' not in br:
+        V.violation('run-failed:large-cap', f'mixed_rank_graph failed: {PC.failure_text(br)}', {'columns': ncol_b + 1, 'cap': cap_b})
+    else:
+        tally = {}
+        for b_, ob_ in enumerate(br['ok'], start=1):
+            ncand = len({frozenset(c_) for c_ in ob_['combos']})
+            pairs = {frozenset((a_, b2_)) for a_, b2_, _ in ob_['trip']}
+            ndup = len(ob_['combos']) - ncand
+            if not (min(cap_b, len(ob_['combos'])) - ndup <= len(pairs) <= min(cap_b, len(ob_['combos']))):
+                V.violation(f'cap:large-cap batch={b_}', f'{len(pairs)} distinct combinations evaluated; the requested cap is {cap_b} and {ncand} distinct candidates exist', {'columns': ncol_b + 1, 'cap': cap_b})
+            for p_ in pairs:
+                tally[p_] = tally.get(p_, 0) + 1
+        V.count(evaluations=3, nontrivial=3, traces=1)
+
     # ---- binding B: recorded sampler calls of real multi-batch runs
     jobs, meta = [], []
     confs = [('target-only', dict(target_ranking_only='True', combination_number_upper_bound=3, heuristic='MI-numba-randomized'), 6),
